@@ -10,31 +10,10 @@
 (* OFFSET (STRIDE = 1: all).  The skeleton is chosen in one step and the   *)
 (* decorations in a second one so that TLC's workers share the load.       *)
 (***************************************************************************)
-EXTENDS TropGraph, GraphGen, TLC, Json, SequencesExt
+EXTENDS Expect, GraphGen, TLC, Json
 CONSTANTS V, EMIN, EMAX, WSET, WD, DSET, EXTV, STRIDE, OFFSET
 
 VARIABLE st
-P == 32749
-RECURSIVE HSeq(_, _, _)
-HSeq(s, i, h) == IF i > Len(s) THEN h ELSE HSeq(s, i + 1, (h * 31 + s[i]) % P)
-Hash(g) == LET h1 == HSeq([i \in 1..NE(g) |-> g.edges[i][1] * 5 + g.edges[i][2]], 1, 7)
-               h2 == HSeq([i \in 1..NE(g) |-> IF g.mass[i] THEN 2 ELSE 1], 1, h1)
-               h3 == HSeq(g.w, 1, h2)
-               h4 == (h3 * 31 + IdOf(g.ext)) % P
-           IN (h4 * 31 + g.D) % P
-
-Expect(g) ==
-   LET gd  == GDodTab(g)
-       div == \E id \in 1..(MaxId(g) - 1) : gd[id + 1] <= 0
-       jt  == IF div THEN <<>> ELSE JTab(g, gd)
-       cum == IF div THEN <<>>
-              ELSE SeqTab(LAMBDA id : IF Cardinality(SetOf(id, NE(g))) >= 2
-                                      THEN Cum(g, gd, jt, id) ELSE <<>>, MaxId(g))
-   IN [g |-> [edges |-> g.edges, mass |-> g.mass, w |-> g.w, wd |-> g.wd,
-              ext |-> SetToSortSeq(g.ext, <), D |-> g.D],
-       div |-> div, near |-> (\E id \in 1..(MaxId(g) - 1) : gd[id + 1] = 0) /\ WD \notin {1, 2, 4, 8, 16},
-       l |-> LoopTab(g), s |-> SpanTab(g), w |-> gd, j |-> jt, cum |-> cum,
-       dod |-> Dod(g), L |-> Loops(g, Full(g)), dim |-> Dim(g), E |-> NE(g)]
 
 Init == st = <<"root">>
 Next == \/ /\ st[1] = "root"
@@ -44,6 +23,6 @@ Next == \/ /\ st[1] = "root"
               \E m \in MassPats(n), w \in WeightPats(n, WSET), x \in SUBSET (1..EXTV), d \in DSET :
                  LET g == [edges |-> st[2], mass |-> m, w |-> w, wd |-> WD, ext |-> x, D |-> d]
                  IN Hash(g) % STRIDE = OFFSET /\ st' = <<"g", g>>
-Emit == st[1] = "g" => PrintT(<<"REPLAY", ToJson(Expect(st[2]))>>)
+Emit == st[1] = "g" => PrintT(<<"REPLAY", ToJson(TableExpect(st[2]))>>)
 Spec == Init /\ [][Next]_st
 =============================================================================
